@@ -270,7 +270,10 @@ def extend_schema(
     schema = extended
 
     if schema_directives is not None:
-        schema = apply_schema_directives(schema, schema_directives)
+        # Only the directives of the extension document: the ones found on the
+        # parse nodes of the schema being extended were applied when it was
+        # built and applying them again would e.g. wrap resolvers twice.
+        schema = apply_schema_directives(schema, schema_directives, within=ast)
 
     schema.validate()
     return schema
